@@ -180,6 +180,8 @@ func (ex *Exec) runPath(r *Runner, h *Harness, prefix []decision) {
 	ex.allocCheckOn = false
 	ex.allocBound = nil
 	ex.events = nil
+	ex.evl = nil
+	ex.evOn = false
 	ex.tagCount = map[string]int{}
 	ex.onceDone = map[*Cell]bool{}
 	ex.pools = map[*Cell][]Value{}
